@@ -296,6 +296,25 @@ def arithmetic_shape(ctx: Ctx, rule: str) -> None:
     ctx.record(rule + "n", "CONST", h.ref, "network address of ip/prefix through ipaddress", ok3, {}, "" if ok3 else "the network address computation changed")
 
 
+def reattach_sequence(ctx: Ctx, rule: str) -> None:
+    """Plain reattachment (no proxy nic): leave the old netconfig's registry, take a free address of the target, join the target."""
+    fref = f"{VN}.reattach_interface"
+    fn = ctx.repo.func(fref)
+    ctx.touch(fref)
+    body = [s_ for s_ in fn.node.body if not (isinstance(s_, ast.Expr) and isinstance(s_.value, ast.Constant))]
+    texts = [ast.unparse(s_) for s_ in body]
+    defs = {ast.unparse(s_.targets[0]): ast.unparse(s_.value) for s_ in body if isinstance(s_, ast.Assign) and len(s_.targets) == 1}
+    want = ["del interface.netconfig.interfaces[interface.ip]", "interface.ip = netconfig.get_allocatable_address()", "netconfig.add_interface(interface)"]
+    pos = [texts.index(w) if w in texts else -1 for w in want]
+    proxy_if = [k for k, s_ in enumerate(body) if isinstance(s_, ast.If) and "proxy_interface" in ast.unparse(s_.test)]
+    ok = all(p >= 0 for p in pos) and pos == sorted(pos) and all(texts.count(w) == 1 for w in want) and defs.get("netconfig") == "ref_interface.netconfig" \
+        and defs.get("interface", "").startswith("self.interfaces[") and "client.name" in defs.get("interface", "") \
+        and defs.get("ref_interface", "").startswith("self.interfaces[") and "server.name" in defs.get("ref_interface", "") \
+        and (not proxy_if or all(k > pos[2] for k in proxy_if if isinstance(body[k].test, ast.Compare) and "is not None" in ast.unparse(body[k].test)))
+    ctx.record(rule, "ORDER", fref, "client interface: removed from its old netconfig under its old ip, then ip = a free address of the server nic's netconfig, then added to that netconfig (once each, in this order)",
+               ok, {"positions": pos}, "" if ok else "the reattached interface is no longer moved as 'leave old registry -> allocate in the target -> join the target'")
+
+
 def optional_not_stored(ctx: Ctx, rule: str) -> None:
     """An optional argument (default None = "keep what is there") is never written into a parameter mapping unguarded.
 
@@ -333,6 +352,7 @@ def optional_not_stored(ctx: Ctx, rule: str) -> None:
 
 def run(ctx: Ctx) -> None:
     ctx.call(optional_not_stored, "8")
+    ctx.call(reattach_sequence, "4o")
     ctx.call(integrate, "1")
     ctx.call(add_interface, "2")
     ctx.call(allocation, "3")
@@ -343,6 +363,9 @@ def run(ctx: Ctx) -> None:
 
 
 MUTANTS = [
+    ("reattach-keeps-old-address", "vmnet/network.py", "        interface.ip = netconfig.get_allocatable_address()\n        netconfig.add_interface(interface)", "        netconfig.add_interface(interface)", "4o"),
+    ("reattach-joins-before-leaving", "vmnet/network.py", "        del interface.netconfig.interfaces[interface.ip]\n        # attach to the new network - with validation and proper attribute update\n        interface.ip = netconfig.get_allocatable_address()\n        netconfig.add_interface(interface)",
+     "        interface.ip = netconfig.get_allocatable_address()\n        netconfig.add_interface(interface)\n        del interface.netconfig.interfaces[interface.ip]", "4"),
     ("optional-mask-stored-unguarded", "vmnet/network.py", "            interface.params[\"netmask\"] = netconfig.netmask", "            interface.params[\"netmask\"] = new_mask", "8"),
     ("join-only-same-bridge", "vmnet/network.py", "                if netconfig.can_add_interface(interface):", "                if netconfig.can_add_interface(interface) and interface.params.get(\"netdst\") == netconfig.netdst:", "x"),
     ("add-without-break", NET, "                    netconfig.add_interface(interface)\n                    break\n            else:", "                    netconfig.add_interface(interface)\n            else:", "1"),
